@@ -128,6 +128,8 @@ func genSmart(r *rng.R, t *trace.Trace, steer bool) {
 	// goroutine may sleep at its yield points (see bubbleBody), which is what lets
 	// a Stop arrive in the middle of a monitor tick.
 	singleOwner := r.Chance(0.5)
+	// in some traces the owner of the context cancels it before calling Stop
+	cancels := r.Chance(0.2)
 	for i := 0; i < nt; i++ {
 		var s []trace.Op
 		n := r.Range(3, 25)
@@ -152,6 +154,9 @@ func genSmart(r *rng.R, t *trace.Trace, steer bool) {
 			case 6:
 				s = append(s, trace.Op{Op: "advance", DurNs: int64(r.Range(1, 30))})
 			}
+			if cancels && i == 0 && k == n/2 {
+				s = append(s, trace.Op{Op: "sr_cancel"}, trace.Op{Op: "sr_stop"})
+			}
 		}
 		t.Tasks = append(t.Tasks, trace.Task{ID: i, Kind: "fg", Script: s, Delays: delays(r, 8*len(s)+8, false)})
 	}
@@ -169,6 +174,10 @@ func genHandles(r *rng.R, t *trace.Trace) {
 		var s []trace.Op
 		if kind == "reader" {
 			for k := 0; k < r.Range(1, 3); k++ {
+				if r.Chance(0.25) {
+					s = append(s, trace.Op{Op: "h_dump_cut", N: r.Intn(2), Seed: r.Uint64()})
+					continue
+				}
 				s = append(s, trace.Op{Op: "h_dump", N: r.Intn(2)}) // which shared file
 			}
 		} else {
@@ -472,11 +481,42 @@ type env struct {
 	cancel context.CancelFunc
 	// noBg: sequential reference run of the incremental mode - the background
 	// rebalancer is never started
-	noBg bool
+	noBg  bool
+	snaps []heldSnapshot
+}
+
+type heldSnapshot struct {
+	snap   rebalancing.MetricsSnapshot
+	digest string
+	taken  bool
+}
+
+// snapshotDigest renders the map-valued parts of a metrics snapshot.
+func snapshotDigest(m rebalancing.MetricsSnapshot) string {
+	return fmt.Sprint(m.TotalEvaluations, m.TotalOperations, m.DecisionsByMode, m.DecisionsByWorkload, m.OperationsByType)
+}
+
+// monitorStillParked reports a SmartRebalancer monitor goroutine that is
+// blocked (sleeping at a yield point, waiting in select) - not one that is
+// merely finishing.
+func monitorStillParked() string {
+	buf := make([]byte, 1<<20)
+	n := runtime.Stack(buf, true)
+	for _, g := range strings.Split(string(buf[:n]), "\n\n") {
+		if !strings.Contains(g, "rebalancing.(*SmartRebalancer).monitorLoop") {
+			continue
+		}
+		hdr, _, _ := strings.Cut(g, "\n")
+		if strings.Contains(hdr, "[running") || strings.Contains(hdr, "[runnable") {
+			continue
+		}
+		return strings.TrimSpace(hdr)
+	}
+	return ""
 }
 
 func newEnv(t *trace.Trace, dir string, s *sched) *env {
-	e := &env{t: t, dir: dir, s: s}
+	e := &env{t: t, dir: dir, s: s, snaps: make([]heldSnapshot, len(t.Tasks)+1)}
 	node := t.Config.NodeSize
 	if node == 0 {
 		node = 1024
@@ -557,6 +597,12 @@ func writeFile(path string, seed uint64, nds int) {
 			}
 		}
 	}
+	// fixed-length strings whose size depends on the seed: per-file datatype
+	// descriptions must not be shared between writers
+	sz := 4 + int(seed%5)*4
+	if sw, err := fw.CreateDataset("/s", hdf5.String, []uint64{3}, hdf5.WithStringSize(uint32(sz))); err == nil {
+		_ = sw.Write([]string{strings.Repeat("a", sz-1), "b", strings.Repeat("c", sz/2)})
+	}
 	_, _ = fw.CreateGroup("/g")
 	_ = fw.Close()
 }
@@ -566,7 +612,7 @@ func dumpDigest(path string) string {
 	var b strings.Builder
 	fmt.Fprintf(&b, "open=%q panic=%q;", d.OpenErr, d.Panic)
 	for _, o := range d.Objs {
-		fmt.Fprintf(&b, "%s|%s|%v|%v|%q|%d|%q;", o.Path, o.Kind, o.Dims, o.F64, o.F64Err, len(o.Attrs), o.AttrsErr)
+		fmt.Fprintf(&b, "%s|%s|%v|%v|%q|%q|%d|%q;", o.Path, o.Kind, o.Dims, o.F64, o.F64Err, o.Strs, len(o.Attrs), o.AttrsErr)
 		for _, a := range o.Attrs {
 			fmt.Fprintf(&b, "%s=%x,", a.Name, a.Data)
 		}
@@ -644,15 +690,47 @@ func (e *env) runTask(i int, script []trace.Op) {
 			st := e.sr.GetStats()
 			s.addResult(i, fmt.Sprintf("evals>=%d", st.TotalEvaluations*0))
 		case "sr_metrics":
-			_ = e.sr.GetMetrics()
+			// a snapshot is a value: what it shows must not change after it was taken
+			if h := &e.snaps[i]; h.taken {
+				if now := snapshotDigest(h.snap); now != h.digest {
+					s.addResult(i, "VIOLATION snapshot-mutated: "+h.digest+" -> "+now)
+				}
+			}
+			snap := e.sr.GetMetrics()
+			e.snaps[i] = heldSnapshot{snap: snap, digest: snapshotDigest(snap), taken: true}
 			_ = e.sr.GetMetricsString()
+		case "sr_cancel":
+			if e.cancel != nil {
+				e.cancel() // the context given to Start is cancelled by its owner
+			}
 		case "sr_start":
 			_ = e.sr.Start(e.ctx)
 		case "sr_stop":
 			_ = e.sr.Stop()
+			// "every start is matched by a stop that returns ... and no goroutine
+			// outlives it": when Stop has returned, no monitor goroutine of this
+			// rebalancer may still be parked inside its loop
+			if g := monitorStillParked(); g != "" {
+				s.addResult(i, "VIOLATION monitor-outlives-stop: "+g)
+			}
 		// --- independent handles
 		case "h_dump":
 			s.addResult(i, dumpDigest(e.shared[op.N%len(e.shared)]))
+		case "h_dump_cut":
+			// a reader on its own damaged copy (cut at a seeded length): error paths
+			// of the parsers run next to healthy handles
+			src := e.shared[op.N%len(e.shared)]
+			p := filepath.Join(e.dir, fmt.Sprintf("cut%d.h5", i))
+			if b, err := os.ReadFile(src); err == nil && len(b) > 16 {
+				// half of the cuts fall into the first 8 KiB, where the object headers are
+				span := uint64(len(b) - 16)
+				if op.Seed&1 == 1 && span > 8192 {
+					span = 8192
+				}
+				_ = os.WriteFile(p, b[:16+int((op.Seed>>1)%span)], 0o644)
+				s.addResult(i, dumpDigest(p))
+				_ = os.Remove(p)
+			}
 		case "h_write":
 			p := filepath.Join(e.dir, fmt.Sprintf("own%d.h5", i))
 			writeFile(p, op.Seed, op.N)
@@ -687,7 +765,7 @@ func (e *env) sequentialResults(t *trace.Trace, nfg int) [][]string {
 		if node == 0 {
 			node = 1024
 		}
-		ref := &env{t: t, dir: e.dir, bt: structures.NewWritableBTreeV2(uint32(node)), noBg: true}
+		ref := &env{t: t, dir: e.dir, bt: structures.NewWritableBTreeV2(uint32(node)), noBg: true, snaps: make([]heldSnapshot, len(t.Tasks)+1)}
 		seq := &sched{start: time.Now(), maxSteps: 0}
 		seq.tasks = []*taskState{{name: "seq"}, {name: "seq"}}
 		ref.s = seq
@@ -863,6 +941,9 @@ func execC18(t *trace.Trace, dir string) *harness.RunResult {
 			viol("race", rr.pair, "data race reported by the race detector between "+rr.pair)
 		}
 	}
+	if pool.doubleRelease != "" {
+		viol("buffer-pool", "double-release@"+pool.doubleRelease, "a pooled scratch buffer was released twice (the pool would hand the same memory to two users): released again in "+pool.doubleRelease)
+	}
 	for _, p := range bo.fgPanics {
 		viol("panic", e1.ErrClass(p), p)
 	}
@@ -874,6 +955,14 @@ func execC18(t *trace.Trace, dir string) *harness.RunResult {
 	}
 	if bo.deadlock != "" && bo.stopHang == "" && bo.leak == "" {
 		viol("goroutine-leak", "blocked-at-end:"+e1.ErrClass(bo.deadlock), bo.deadlock)
+	}
+	for i := range bo.results {
+		for _, r := range bo.results[i] {
+			if strings.HasPrefix(r, "VIOLATION ") {
+				kind, detail, _ := strings.Cut(strings.TrimPrefix(r, "VIOLATION "), ": ")
+				viol("lifecycle", kind, detail)
+			}
+		}
 	}
 	if bo.seqResults != nil {
 		for i := range bo.seqResults {
@@ -959,6 +1048,9 @@ type poolTag struct {
 type poisonPool struct {
 	free []pooled
 	tags []poolTag // no map: map operations are instrumented runtime calls
+	// doubleRelease: a buffer was released while it was already in the pool (the
+	// pool would hand the same memory to two users); holds the releasing function
+	doubleRelease string
 }
 
 //go:norace
@@ -984,6 +1076,14 @@ func (p *poisonPool) Put(buf []byte) {
 		return
 	}
 	b := buf[:cap(buf)]
+	for k := range p.free {
+		if fb := p.free[k].buf; cap(fb) > 0 && &fb[:1][0] == &b[0] {
+			if p.doubleRelease == "" {
+				p.doubleRelease = releaseSite()
+			}
+			return // keep the pool sound for the rest of the run
+		}
+	}
 	poison(b)
 	if len(p.free) < 64 {
 		var tag *uint32
@@ -1098,4 +1198,21 @@ func setIncrIntervalCur(d time.Duration) {
 	if cur != nil {
 		cur.incrInterval = d
 	}
+}
+
+// releaseSite names the innermost library function on the current stack.
+func releaseSite() string {
+	buf := make([]byte, 8192)
+	n := runtime.Stack(buf, false)
+	for _, l := range strings.Split(string(buf[:n]), "\n") {
+		l = strings.TrimSpace(l)
+		if strings.HasPrefix(l, "github.com/scigolib/hdf5") && !strings.HasPrefix(l, "github.com/scigolib/hdf5/verifsim") && !strings.Contains(l, "internal/utils.") {
+			fn := strings.TrimPrefix(l, "github.com/scigolib/hdf5")
+			if k := strings.LastIndex(fn, "("); k > 0 {
+				fn = fn[:k]
+			}
+			return fn
+		}
+	}
+	return "?"
 }
